@@ -28,15 +28,21 @@ LSET, LDEL, LAPPEND, LINSERT, LEXTEND, LPOP, LREMOVE, LCLEAR, LREVERSE, LSORT, L
 DSET, DDEL, DPOP, DPOPITEM, DCLEAR, DSETDEFAULT, DUPDATE, DIOR, DCOPY = range(20, 29)
 OSET = 30
 REBIND, CLONE, SEAL, SETAW = 40, 41, 42, 43
+# slice operations: implementation side only (not in the SymCore model; used by oracle-only sweeps, modelled by C02's extension)
+LSETSLICE, LDELSLICE, LGETSLICE = 90, 91, 92        # (50.. are used by the C02 / C09 extensions)
+SLICE_OPS = {LSETSLICE, LDELSLICE, LGETSLICE}
 LIST_OPS = set(range(1, 16)); DICT_OPS = set(range(20, 29)); OBJ_OPS = {OSET}; ANY_OPS = {REBIND, CLONE, SEAL, SETAW}
 OP_NAMES = {LSET: 'List.__setitem__', LDEL: 'List.__delitem__', LAPPEND: 'List.append', LINSERT: 'List.insert', LEXTEND: 'List.extend',
             LPOP: 'List.pop', LREMOVE: 'List.remove', LCLEAR: 'List.clear', LREVERSE: 'List.reverse', LSORT: 'List.sort',
             LIADD: 'List.__iadd__', LIMUL: 'List.__imul__', LADD: 'List.__add__', LMUL: 'List.__mul__', LCOPY: 'List.copy',
             DSET: 'Dict.__setitem__', DDEL: 'Dict.__delitem__', DPOP: 'Dict.pop', DPOPITEM: 'Dict.popitem', DCLEAR: 'Dict.clear',
             DSETDEFAULT: 'Dict.setdefault', DUPDATE: 'Dict.update', DIOR: 'Dict.__ior__', DCOPY: 'Dict.copy', OSET: 'Object.__setattr__',
-            REBIND: 'rebind', CLONE: 'clone', SEAL: 'seal', SETAW: 'set_accessor_writable'}
+            REBIND: 'rebind', CLONE: 'clone', SEAL: 'seal', SETAW: 'set_accessor_writable',
+            LSETSLICE: 'List.__setitem__(slice)', LDELSLICE: 'List.__delitem__(slice)', LGETSLICE: 'List.__getitem__(slice)'}
 # ops that change the target (or something below it) when they succeed
 MUTATING = (LIST_OPS - {LADD, LMUL, LCOPY}) | (DICT_OPS - {DCOPY}) | {OSET, REBIND}
+# the mutators the SymCore model contains (slices are implementation-side only)
+MODEL_MUTATING = set(MUTATING)
 # ops performed "through accessors" (item / attribute assignment and deletion)
 ACCESSOR_OPS = {LSET, LDEL, DSET, DDEL, OSET}
 
@@ -342,7 +348,7 @@ def apply_op(impl, scope, op):
   try:
     target = impl.at(pos)
     k = kind_of(target) if is_sym(target) else -1
-    if (tag in LIST_OPS and k != 1) or (tag in DICT_OPS and k != 0) or (tag in OBJ_OPS and k < 2) or k < 0:
+    if (tag in LIST_OPS and k != 1) or (tag in SLICE_OPS and k != 1) or (tag in DICT_OPS and k != 0) or (tag in OBJ_OPS and k < 2) or k < 0:
       raise NotApplicable()
     # resolve references before anything runs (a missing position makes the whole op not applicable)
     def check(v):
@@ -361,8 +367,11 @@ def apply_op(impl, scope, op):
   if tag in (REBIND, DUPDATE, DIOR):
     # application order of the written paths, keyed by the actual position they address before the op
     paths = [[dec_key(kk) for kk in p] for p, _ in op[2]] if tag == REBIND else [[dec_key(kk)] for kk, _ in op[2]]
+    inserts = [v[0] == 2 for _, v in op[2]]          # an Insertion removes nothing
     tkeys = pre[id(target)][2]
     for n, i in enumerate(app_order(impl, target, [[enc_key(k) for k in p] for p in paths])):
+      if inserts[i]:
+        continue
       x, actual = target, []
       for kk in paths[i]:
         if isinstance(x, list) and isinstance(kk, int) and -len(x) <= kk < 0:
@@ -449,6 +458,7 @@ def op_values(op):
   if tag in (LSET, LINSERT): return [op[3]]
   if tag == LAPPEND: return [op[2]]
   if tag in (LEXTEND, LIADD, LADD): return list(op[2])
+  if tag == LSETSLICE: return list(op[3])
   if tag in (DSET,): return [op[4]]
   if tag in (DSETDEFAULT, OSET): return [op[3]]
   if tag in (DUPDATE, DIOR): return [v for _, v in op[2]]
@@ -519,6 +529,11 @@ def run_op(impl, t, op, new_results, val):
     m = op[2]
     r = t.clone() if m == 0 else t.clone(deep=True) if m == 1 else copy.copy(t) if m == 2 else copy.deepcopy(t)
     new_results.append(r); return r
+  if tag in (LSETSLICE, LDELSLICE, LGETSLICE):
+    sl = slice(*[(o[0] if o else None) for o in op[2]])
+    if tag == LSETSLICE: t[sl] = [val(v) for v in op[3]]; return None
+    if tag == LDELSLICE: del t[sl]; return None
+    return t[sl]
   if tag == SEAL: t.seal(bool(op[2])); return None
   if tag == SETAW: t.set_accessor_writable(bool(op[2])); return None
   raise ValueError('unknown op tag %r' % (tag,))
@@ -630,6 +645,8 @@ CORPUS = {
                                         (NS, [DSET, P(0, 'a]'), 0, enc_key('b.c'), V([1])]), (NS, [DDEL, P(0), 0, enc_key('a]')])),
   'root-inside-removed-tree': case([{'a': 1}, [{'x': 1}]], (NS, [DSET, P(1, 0), 0, enc_key('k'), R(0)]), (NS, [LDEL, P(1), 0]),
                                    (NS, [DPOP, P(2), enc_key('k'), []]), (NS, [DSET, P(0), 0, enc_key('b'), V(2)])),
+  'rebind-insertion-and-negative-index': case([[1, [2], {'a': 1}]],
+                                              (NS, [REBIND, P(0), [[[[1, 1]], V(7)], [[[1, -1]], V(8)], [[[1, 2]], INS(V(None))]]])),
   'missing-in-list': case([[1, 2, 3]], (sc(notify=[False]), [LSET, P(0), 1, V('MISSING')]), (NS, [CLONE, P(0), 0]), (NS, [LAPPEND, P(0), V(4)])),
 }
 
@@ -688,7 +705,7 @@ def run_property(ctx, prop, oracle_cls, extra=None, focus=None, quick=700, thoro
     cases.append([quirks, c[1], c[2]]); kinds.append('corpus:' + name)
   n = ctx.scale(quick, thorough)
   gens = [(G.Gen(rng, cycles=True, quirks=quirks), 'random', 0.55), (G.Gen(rng, cycles=True, focus=focus, quirks=quirks) if focus else None, 'focus', 0.2),
-          (G.Gen(rng, cycles=True, focus=MUTATING, quirks=quirks), 'mutators', 0.25)]
+          (G.Gen(rng, cycles=True, focus=MODEL_MUTATING, quirks=quirks), 'mutators', 0.25)]
   gens = [g for g in gens if g[0] is not None]
   tot = sum(w for _, _, w in gens)
   for g, kind, w in gens:
@@ -747,7 +764,7 @@ def run_property(ctx, prop, oracle_cls, extra=None, focus=None, quick=700, thoro
     for i in bad[:50]:
       d = diffs.get(id(cases[i])) or {}
       ops |= {t for t, nm in OP_NAMES.items() if nm == d.get('op')}
-    g = G.Gen(rng, cycles=True, focus=ops or MUTATING, quirks=quirks)
+    g = G.Gen(rng, cycles=True, focus=ops or MODEL_MUTATING, quirks=quirks)
     for _ in range(ctx.scale(600, 6000)):
       case = g.case(8)
       orc = oracle_cls()
